@@ -17,6 +17,9 @@ VERIF = os.path.dirname(os.path.dirname(os.path.abspath(__file__)))
 sys.path.insert(0, VERIF)
 CACHE = "/tmp/ncorpus"
 NEUTRAL = os.path.join(VERIF, "neutral")
+if os.environ.get("CORPUS") == "seeded":      # the confirmed external mutants: every one must still be REPORTED by its property's check
+    CACHE = "/tmp/scorpus"
+    NEUTRAL = os.path.join(VERIF, "seeded")
 
 
 def sh(cmd, cwd=None):
@@ -26,7 +29,7 @@ def sh(cmd, cwd=None):
 
 def names(argv):
     ns = [a for a in argv if not a.startswith("-")]
-    return ns or sorted(os.listdir(NEUTRAL))
+    return ns or sorted(d for d in os.listdir(NEUTRAL) if os.path.isdir(os.path.join(NEUTRAL, d)))
 
 
 def build(ns):
@@ -95,6 +98,25 @@ def run(ns, prop=None):
         for n, pr, rc, keys in ex.map(one, jobs):
             if rc != 0:
                 alarms.setdefault(n, {})[pr] = keys[:8]
+    if os.environ.get("CORPUS") == "seeded":
+        silent = []
+        for n in ns:
+            own = "C" + n[1:3]
+            meta = {}
+            try:
+                meta = json.load(open(os.path.join(NEUTRAL, n, "meta.json")))
+            except Exception:
+                pass
+            was = meta.get("detected_by_check")
+            now = own in alarms.get(n, {})
+            if was and not now:
+                print("LOST", n, "was detected, now silent; other alarms:", json.dumps(alarms.get(n, {})))
+            if not was and now:
+                print("GAINED", n, alarms[n][own][:3])
+            if not now:
+                silent.append(n)
+        print("mutants=%d reported by own property=%d silent=%s" % (len(ns), len(ns) - len(silent), silent))
+        return 0
     for n in ns:
         if n in alarms:
             print(n, json.dumps(alarms[n]))
